@@ -26,7 +26,10 @@ MCText == [ s01 |-> [ids |-> <<"x", "pl", "n2">>, key |-> "K01"],
             s15 |-> [ids |-> <<"n23">>, key |-> "K14"],                     \* 23
             s16 |-> [ids |-> <<"n2", "n3">>, key |-> "K15"],                \* 2 TAB 3
             s17 |-> [ids |-> <<"xx">>, key |-> "K16"],                      \* xx_1 (undefined variable)
-            s18 |-> [ids |-> <<"x", "y">>, key |-> "K17"] ]                 \* x TAB x_1
+            s18 |-> [ids |-> <<"x", "y">>, key |-> "K17"],                  \* x TAB x_1
+            \* an unparsable string and the same string spaced differently: same key, never cached, and each call
+            \* must report its own text
+            s19 |-> [ids |-> <<"x", "pl">>, key |-> "K09"] ]                 \* "x +" (s10 is "x+")
 AllStrings == DOMAIN MCText
 Small == {"s01", "s02", "s05", "s08", "s10", "s11", "s16"}
 =============================================================================
